@@ -529,7 +529,17 @@ def correspondence(ctx):
 
 # the places where an EXTERNAL value is rendered inline (fixed_param_values is written): string index / slice bounds, getattr names
 RERUN_SITES = [('p.name[:x] for p in P', {}), ('p.name[x:] for p in P', {}), ('p.name[x:y] for p in P', {}), ('p.id for p in P if p.name[x] == "a"', {}),
-               ('p.name[1:y] for p in P', {}), ('getattr(p, nm) for p in P', {'nm': 'name'})]
+               ('p.name[1:y] for p in P', {}), ('getattr(p, nm) for p in P', {'nm': 'name'}),
+               # the same inside SUBQUERIES (the bound must be pinned on the root translator: Query._get_translator and the SQL key look only there)
+               ('p.id for p in P if exists(q for q in P if q.name[:x] == p.name[:x] and q.id != p.id)', {}),
+               ('p.id for p in P if p.id in select(q.id for q in P if q.name[x:y] == "a")', {}),
+               ('(p.id, count(q for q in P if q.name[x] == p.name[x])) for p in P', {}),
+               ('p.id for p in P if exists(q for q in P if exists(r for r in P if r.name[:y] == q.name[:y] and r.id > q.id) and q.id == p.id)', {}),
+               ('p.id for p in P if exists(q for q in P if getattr(q, nm) == getattr(p, nm) and q.id != p.id)', {'nm': 'name'})]
+
+def rerun_globals(P, g):
+    from pony import orm
+    return dict(g, P=P, exists=orm.exists, select=orm.select, count=orm.count)
 
 def pinned_and_inlined(prov, src, g):
     """(values recorded in fixed_param_values, values of the external variables of the query that are not bound as PARAM anywhere)"""
@@ -537,7 +547,7 @@ def pinned_and_inlined(prov, src, g):
     db, P = mock_db(prov)
     db._translator_cache.clear(); db._constructed_sql_cache.clear()
     with orm.db_session:
-        q = orm.select(src, dict(g, P=P))
+        q = orm.select(src, rerun_globals(P, g))
         tr = q._translator
         pinned = list(tr.fixed_param_values.values())
         bound = set()
@@ -799,7 +809,7 @@ def rerun_once(style, tag, src, gl, cold):
     if cold: db._translator_cache.clear(); db._constructed_sql_cache.clear()
     with orm.db_session:
         del log[:]
-        try: rows = sorted(map(repr, orm.select(src, dict(gl, P=P)).without_distinct()[:]))
+        try: rows = sorted(map(repr, orm.select(src, rerun_globals(P, gl)).without_distinct()[:]))
         except Exception as e: rows = 'EXC %s: %s' % (type(e).__name__, str(e)[:150])
         call = log[-1] if log else None
     return rows, call
